@@ -21,20 +21,23 @@ class LoopSpec:
     modified: names of local variables bound to heap containers the body mutates.
     inv(i, view, ctx) -> list of (name, z3 Bool); view maps each modified name to its payload term."""
 
-    def __init__(self, fingerprint, modified, inv, over="sequence"):
+    def __init__(self, fingerprint, modified, inv, over="sequence", ghost=()):
         self.fingerprint, self.modified, self.inv = fingerprint, list(modified), inv
+        self.ghost = list(ghost)      # ghost-state keys (z3 terms) the loop may change: havocked like `modified`
         self.over = over      # 'sequence': inv(i, ...) over a prefix length; 'members': inv(done, ...) over the
         #                       set of members already visited (iteration over a set / the keys of a dict, any order)
 
 
 def header(node):
+    if isinstance(node, ast.While):
+        return "while %s" % ast.unparse(node.test)
     return "for %s in %s" % (ast.unparse(node.target), ast.unparse(node.iter))
 
 
 def make_hook(specs):
     def on_loop(I, node, ordinal, it, st):
         spec = specs.get(ordinal)
-        if spec is None or not isinstance(node, ast.For):
+        if spec is None:
             return None
         if header(node) != spec.fingerprint:
             raise Unsupported("loop %d header %r does not match the invariant's fingerprint %r"
@@ -43,24 +46,75 @@ def make_hook(specs):
     return on_loop
 
 
+def _ref_of(st, name):
+    """`x` (local variable) or `self.attr` (field of a heap object held by a local)"""
+    if "." in name:
+        base, attr = name.split(".", 1)
+        b = st.env.get(base)
+        ref = st.heap[b.oid].fields.get(attr) if isinstance(b, VRef) else None
+    else:
+        ref = st.env.get(name)
+    if not isinstance(ref, VRef):
+        raise Unsupported("loop-modified variable %s is not a container" % name)
+    return ref
+
+
 def _view(st, spec):
     v = {}
     for name in spec.modified:
-        ref = st.env.get(name)
-        if not isinstance(ref, VRef):
-            raise Unsupported("loop-modified variable %s is not a container" % name)
-        v[name] = st.heap[ref.oid].payload
+        v[name] = st.heap[_ref_of(st, name).oid].payload
+    for key in spec.ghost:
+        v[key] = st.ghost.get(key)
     return v
 
 
 def _havoc(I, st, spec, tag):
     cx = I.cx
     for name in spec.modified:
-        ref = st.env[name]
+        ref = _ref_of(st, name)
         h = st.heap[ref.oid]
         fresh = cx.fresh("%s@%s" % (name, tag), h.payload.sort())
         st = st.put(ref.oid, HObj(h.kind, fresh, h.cls, h.fields, {}))
+    for key in spec.ghost:
+        cur = st.ghost.get(key)
+        st = st.gset(key, cx.fresh("%s@%s" % (key, tag), cur.sort()))
     return st
+
+
+def run_while(I, node, ordinal, st, spec):
+    """while <cond>: body -- cut at the invariant: inv holds on entry; from inv and cond one execution of the real body
+    re-establishes inv; after the loop inv and not cond are known."""
+    cx = I.cx
+    from .core import truth
+    for (nm, c) in spec.inv(None, _view(st, spec), st):
+        I.require(st, c, "inv-init#%d:%s" % (ordinal, nm))
+    out = []
+    sth = _havoc(I, st, spec, "i")
+    sth = sth.assume(*[c for (_n, c) in spec.inv(None, _view(sth, spec), sth)])
+
+    def at_head(stx, k_true, k_false):
+        return I.ev(node.test, stx, lambda c, s2: cx.branch(s2, truth(cx, c, s2), k_true, k_false))
+    frame_before = dict(sth.heap)
+    mod_oids = {_ref_of(sth, nm).oid for nm in spec.modified}
+
+    def body(st2):
+        res = []
+        for (kind, payload, st3) in I.block(node.body, st2):
+            if kind in ("next", "continue"):
+                _frame(I, st3, frame_before, mod_oids, ordinal)
+                for (nm, c) in spec.inv(None, _view(st3, spec), st3):
+                    I.require(st3, c, "inv-keep#%d:%s" % (ordinal, nm))
+            elif kind in ("raise", "return"):
+                res.append((kind, payload, st3))
+            else:
+                raise Unsupported("break inside an invariant loop")
+        return res
+    if cx.feasible(sth):
+        out += at_head(sth, body, lambda s: [])
+    ste = _havoc(I, st, spec, "end")
+    ste = ste.assume(*[c for (_n, c) in spec.inv(None, _view(ste, spec), ste)])
+    out += at_head(ste, lambda s: [], lambda s: (I.block(node.orelse, s) if node.orelse else [("next", None, s)]))
+    return out
 
 
 def run_members(I, node, ordinal, it, st, spec):
@@ -82,7 +136,7 @@ def run_members(I, node, ordinal, it, st, spec):
                      *[c for (_n, c) in spec.inv(done, _view(sth, spec), sth)])
     if cx.feasible(sth):
         frame_before = dict(sth.heap)
-        mod_oids = {sth.env[nm].oid for nm in spec.modified}
+        mod_oids = {_ref_of(sth, nm).oid for nm in spec.modified}
         for (kind, payload, st3) in I.assign(node.target, VElem(key), sth, lambda st2: I.block(node.body, st2)):
             if kind in ("next", "continue"):
                 _frame(I, st3, frame_before, mod_oids, ordinal)
@@ -109,6 +163,8 @@ def _frame(I, st3, frame_before, mod_oids, ordinal):
 
 
 def run(I, node, ordinal, it, st, spec):
+    if isinstance(node, ast.While):
+        return run_while(I, node, ordinal, st, spec)
     if spec.over == "members":
         return run_members(I, node, ordinal, it, st, spec)
     cx = I.cx
@@ -138,7 +194,7 @@ def run(I, node, ordinal, it, st, spec):
         if unpack2 is not None:
             elem = VTuple([VElem(unpack2[0](S[i])), VElem(unpack2[1](S[i]))])
         frame_before = {o: h for o, h in sth.heap.items()}
-        mod_oids = {sth.env[nm].oid for nm in spec.modified}
+        mod_oids = {_ref_of(sth, nm).oid for nm in spec.modified}
 
         def body(st2):
             return I.block(node.body, st2)
